@@ -33,7 +33,7 @@ MANIFEST = {
                  'attribute kind x policy x datum under a recording '
                  'security policy; non-interference (two-run) and mediation '
                  '(policy log) oracles',
-    'text': 'A table of 93 access channels (client lookup, with / with '
+    'text': 'A table of 111 access channels (client lookup, with / with '
             'only, attribute / item / _.getattr / _[...] access in '
             'expressions, dtml-in items as objects and 2-tuples, '
             'skip_unauthorized, sequence-var-, first-/last-, the ten '
@@ -172,6 +172,33 @@ def ns_client(attr, datum, other=None):
     return Node(**{attr: datum}), {}
 
 
+def ns_client_tuple(attr, datum, other=None):
+    return (Node(other='x'), Node(**{attr: datum})), {}
+
+
+def ns_client_tuple_first(attr, datum, other=None):
+    return (Node(**{attr: datum}), Node(other='x')), {}
+
+
+def ns_client_seq(attr, datum, other=None):
+    return Node(**{attr: [datum, 'tail']}), {}
+
+
+def ns_client_obj(attr, datum, other=None):
+    return Node(**{attr: Node(inner=datum)}), {}
+
+
+def ns_client_truth(attr, datum, other=None):
+    return Node(**{attr: 'yes' if datum == D1 else ''}), {}
+
+
+def ns_client_sub(attr, datum, other=None):
+    from DocumentTemplate import HTML
+    return Node(**{attr: datum}), {
+        'namesub': HTML('[<dtml-var %s>]' % attr),
+        'exprsub': HTML('[<dtml-var "_[\'%s\']">]' % attr)}
+
+
 def ns_seq_refused_many(attr, datum, other=None):
     return None, {'seq': [Node(pubdata=datum, refuse_item=True),
                           Node(pubdata=datum + 'b', refuse_item=True),
@@ -254,6 +281,31 @@ CHANNELS = [
     ('client-name', '<dtml-var ATTR>', ns_client, ''),
     ('client-entity', '&dtml-ATTR;', ns_client, ''),
     ('client-if', '<dtml-if ATTR>yes<dtml-else>no</dtml-if>', ns_client, ''),
+    ('client-unless', '<dtml-unless ATTR>no</dtml-unless>', ns_client_truth,
+     'truth'),
+    ('client-elif', '<dtml-if nope>x<dtml-elif ATTR>yes<dtml-else>no'
+     '</dtml-if>', ns_client_truth, 'truth'),
+    ('client-let', '<dtml-let z=ATTR><dtml-var z></dtml-let>', ns_client, ''),
+    ('client-fullpath', '<dtml-var ATTR upper size=40 null="N">', ns_client,
+     'upper'),
+    ('client-entity-mod', '&dtml.lower.url_quote-ATTR;', ns_client, 'lower'),
+    ('client-epfs', '<dtml-var namesub>', ns_client_sub, ''),
+    ('client-sub-expr', '<dtml-var exprsub>', ns_client_sub, ''),
+    ('client-return', '<dtml-return ATTR>', ns_client, ''),
+    ('client-in', '<dtml-in ATTR><dtml-var sequence-item>,</dtml-in>',
+     ns_client_seq, ''),
+    ('client-in-batch', '<dtml-in ATTR size=1><dtml-var sequence-item>,'
+     '</dtml-in>', ns_client_seq, ''),
+    ('client-with', '<dtml-with ATTR><dtml-var inner></dtml-with>',
+     ns_client_obj, ''),
+    ('client-expr-ns', '<dtml-var "_[\'ATTR\']">', ns_client, ''),
+    ('client-expr-getitem', '<dtml-var "_.getitem(\'ATTR\')">', ns_client,
+     ''),
+    ('client-expr-name', '<dtml-var "ATTR">', ns_client, 'exprname'),
+    ('client-tuple-last', '<dtml-var ATTR>', ns_client_tuple, ''),
+    ('client-tuple-first', '<dtml-var ATTR>', ns_client_tuple_first, ''),
+    ('client-try', '<dtml-try><dtml-var ATTR><dtml-except>caught'
+     '</dtml-try>', ns_client, ''),
     ('with', '<dtml-with o><dtml-var ATTR></dtml-with>', ns_obj, ''),
     ('with-only', '<dtml-with o only><dtml-var ATTR></dtml-with>', ns_obj,
      ''),
@@ -555,6 +607,10 @@ def run(case):
         if 'order' in flags or 'num' in flags or 'truth' in flags or \
                 'pairwise' in flags:
             return None           # judged by comparing the two runs
+        if 'upper' in flags:
+            return datum.upper() in out[1]
+        if 'lower' in flags:
+            return datum.lower() in out[1]
         return datum in out[1]
 
     if 'items' in flags:
